@@ -7,7 +7,7 @@ from plogio import *
 RULE = ("validated models (depth 0-3, all connectives, integer leaves, sharing, some pre-fixed sub-propositions) x partial / "
         "interval-valued interpretations in mixed value forms (leaf points, leaf sub-ranges, sub-proposition overrides) x random "
         "completions; flags: every compound node's is_tautology / is_contradiction / equation_bounds against brute-force "
-        "enumeration of its children's boxes; non-trivial = the result contains a constant for a node whose own interpretation "
+        "enumeration of its children's boxes (corner evaluation when the box is too large, incl. the 16-bit extremes -32768 / 32767); non-trivial = the result contains a constant for a node whose own interpretation "
         "entry / declaration is not constant (a derived constant); distinct by (model, interpretation)")
 
 def oracle_case(res, ast, d, rng, n_comp):
@@ -32,10 +32,15 @@ def flags_case(res, x, cap=3000):
     for r in rngs:
         n *= len(r)
     if n > cap:
-        return None
-    vals = [int(x.sign) * sum(t) - x.value for t in itertools.product(*rngs)]
-    res.evaluations += n
-    mn, mx = min(vals), max(vals)
+        # box too large to enumerate: the extremes of a linear form over a box are attained at the corners
+        sg = int(x.sign)
+        mn = sum(min(sg * r[0], sg * r[-1]) for r in rngs) - x.value
+        mx = sum(max(sg * r[0], sg * r[-1]) for r in rngs) - x.value
+        res.evaluations += 1
+    else:
+        vals = [int(x.sign) * sum(t) - x.value for t in itertools.product(*rngs)]
+        res.evaluations += n
+        mn, mx = min(vals), max(vals)
     eb = tuple(int(v) for v in x.equation_bounds)
     if eb != (mn, mx):
         return f"equation_bounds {eb} but attainable range is {(mn, mx)}"
@@ -51,7 +56,7 @@ def run(res, tier, seed):
     n_models = 300 if tier == "quick" else 3500
     per = 2 if tier == "quick" else 3
     n_comp = 6 if tier == "quick" else 25
-    models = gen_valid(rng, n_models, res, constvar=0.08)
+    models = gen_valid(rng, n_models, res, constvar=0.08, big=0.15)
     cases, fcases = [], []
     for ast, m in models:
         res.count("depth_%d" % depth_of(m))
@@ -76,9 +81,9 @@ def run(res, tier, seed):
             if is_var(x):
                 continue
             r = flags_case(res, x)
-            if r is None:
-                res.count("flags_box_too_large"); continue
             res.count("flags_checked")
+            if any(int(c.bounds.lower) <= -32768 or int(c.bounds.upper) >= 32767 for c in x.propositions):
+                res.count("flags_with_16bit_extreme_child")
             if x.is_tautology: res.count("flag_tautology")
             if x.is_contradiction: res.count("flag_contradiction")
             if r:
